@@ -83,6 +83,18 @@ def body_request(path, framing, payload, override=None, gzipped=False, chunks=No
 
 def execute(app, data, segs, server_kwargs):
     REC.clear()
+    server_kwargs = dict(server_kwargs)
+    start_override = server_kwargs.pop("start_override", None)
+    if start_override is not None:
+        from tornado import httputil
+        inner = app
+
+        class Wrap(httputil.HTTPServerConnectionDelegate):
+            """a connection delegate that sets the body limit of each request when the request starts"""
+            def start_request(self, server_conn, request_conn):
+                request_conn.set_max_body_size(start_override)
+                return inner.start_request(server_conn, request_conn)
+        app = Wrap()
     with World() as w:
         c = ServerConn(w, app, **server_kwargs)
         c.send_segments(segs)
@@ -152,6 +164,20 @@ class C04(Check):
             out.append(("hdr", H, None, req))
             first = b"GET /b HTTP/1.1\r\nHost: h\r\n\r\n"
             out.append(("hdr2", H, None, first + req))
+        # a header block well inside max_header_size followed by a body longer than max_header_size (one segment, every
+        # cut): the header limit applies to the header block, not to whatever else is buffered behind it
+        for path in ("/s", "/b"):
+            for n in (200, 1000):
+                out.append(("bigbody", path, None, n, None))
+        # a per-request override larger than the stream's max_buffer_size (256): a streaming handler may raise the body
+        # limit beyond what the stream buffers at once
+        for n in (600, 1000, 1001):
+            out.append(("cl-smallbuf", "/s", 1000, n, None))
+            out.append(("chunked-smallbuf", "/s", 1000, n, (n // 2, n - n // 2)))
+        for sov in (8, 32):                  # the override is set in HTTPServerConnectionDelegate.start_request
+            for n in (sov - 1, sov, sov + 1):
+                out.append(("cl-startreq", "/b", sov, n, None))
+                out.append(("chunked-startreq", "/s", sov, n, (n,)))
         L = 16
         for path in ("/s", "/b"):
             for n in (L - 1, L, L + 1, 100 * L):
@@ -239,13 +265,26 @@ class C04(Check):
                     data = body_request(path, "chunked", wire, ov, gzipped=True, chunks=(k, len(wire) - k))
                 limit = ov if ov is not None else L
                 must = "accept" if (n <= limit and len(wire) <= limit) else "refuse"
+            elif kind == "bigbody":
+                kw = dict(max_header_size=128)
+                plain = pattern(n)
+                wire = plain
+                data = body_request(path, "cl", wire, ov)
+                assert data.index(b"\r\n\r\n") + 4 < 100
+                limit, must = 10 ** 9, "accept"
             else:
                 L = 0 if kind.endswith("@0") else 16
                 kw = dict(max_body_size=L, chunk_size=4)
+                if kind.endswith("-smallbuf"):
+                    kw = dict(max_body_size=L, chunk_size=64, max_buffer_size=256)
+                sov = None
+                if kind.endswith("-startreq"):
+                    kw["start_override"] = sov = ov
+                    ov = None
                 plain = pattern(n)
                 wire = plain
-                data = body_request(path, kind.split("@")[0] if kind.startswith("cl") else "chunked", wire, ov, chunks=comp)
-                limit = ov if ov is not None else L
+                data = body_request(path, kind.split("@")[0].replace("-smallbuf", "").replace("-startreq", "") if kind.startswith("cl") else "chunked", wire, ov, chunks=comp)
+                limit = ov if ov is not None else (sov if sov is not None else L)
                 must = "accept" if n <= limit else "refuse"
 
             def judge(obs):
